@@ -1,6 +1,7 @@
 package nbt
 
 import (
+	"errors"
 	"fmt"
 	"io"
 	"math"
@@ -124,6 +125,9 @@ func (m *StringifiedMessage) encode(d *Decoder, sb *strings.Builder, tagType byt
 		if err != nil {
 			return err
 		}
+		if aryLen < 0 {
+			return errors.New("byte array len less than 0")
+		}
 		first := true
 		sb.WriteString("[B;")
 		for i := int32(0); i < aryLen; i++ {
@@ -144,6 +148,9 @@ func (m *StringifiedMessage) encode(d *Decoder, sb *strings.Builder, tagType byt
 		if err != nil {
 			return err
 		}
+		if aryLen < 0 {
+			return errors.New("int array len less than 0")
+		}
 		sb.WriteString("[I;")
 		first := true
 		for i := 0; i < int(aryLen); i++ {
@@ -163,6 +170,9 @@ func (m *StringifiedMessage) encode(d *Decoder, sb *strings.Builder, tagType byt
 		aryLen, err := d.readInt32()
 		if err != nil {
 			return err
+		}
+		if aryLen < 0 {
+			return errors.New("long array len less than 0")
 		}
 		first := true
 		sb.WriteString("[L;")
@@ -187,6 +197,9 @@ func (m *StringifiedMessage) encode(d *Decoder, sb *strings.Builder, tagType byt
 		listLen, err := d.readInt32()
 		if err != nil {
 			return err
+		}
+		if listLen < 0 {
+			return errors.New("list length less than 0")
 		}
 		first := true
 		sb.WriteString("[")
